@@ -176,14 +176,14 @@ var vfGsSuitesFake = []uint16{
 var vfGsGroupsImpl = []CurveID{X25519, CurveP256, CurveP384, CurveP521, X25519MLKEM768, X25519Kyber768Draft00}
 var vfGsGroupsClassical = []CurveID{X25519, CurveP256, CurveP384, CurveP521}
 var vfGsGroupsFake = []CurveID{FakeCurveFFDHE2048, FakeCurveFFDHE3072, FakeCurveFFDHE4096, FakeCurveFFDHE6144, FakeCurveFFDHE8192,
-	FakeCurveX25519Kyber512Draft00, FakeCurveX25519Kyber768Draft00Old, FakeCurveP256Kyber768Draft00, 0x11eb, 0x001e, 0x0016}
+	FakeCurveX25519Kyber512Draft00, FakeCurveX25519Kyber768Draft00Old, FakeCurveP256Kyber768Draft00, 0x001e, 0x0016}
 
 var vfGsSigAlgs = []SignatureScheme{ECDSAWithP256AndSHA256, PSSWithSHA256, PKCS1WithSHA256, ECDSAWithP384AndSHA384, PSSWithSHA384,
 	PKCS1WithSHA384, PSSWithSHA512, PKCS1WithSHA512, PKCS1WithSHA1, ECDSAWithP521AndSHA512, ECDSAWithSHA1, Ed25519,
 	0x0301, 0x0303, 0x0202, 0x0402, 0x0808, 0x0809, 0x080a, 0x080b}
 
 // extension ids not otherwise produced by a library type, for GenericExtension (bodies are opaque to the parser)
-var vfGsGenericIDs = []uint16{1234, 49, 22, 0x00fa, 0xffce, 2, 6, 20, 0x4469 - 1, 0x3a3b}
+var vfGsGenericIDs = []uint16{1234, 49, 0x00fa, 0xffce, 2, 6, 20, 0x4469 - 1, 0x3a3b}
 
 func vfGsShareLen(g CurveID) int {
 	switch g {
